@@ -208,3 +208,110 @@ def _literal(a):
         a = a["e"]
     return isinstance(a, dict) and a.get("k") in ("str", "null", "int", "char") or \
         (isinstance(a, dict) and a.get("k") == "ref" and a.get("dk") == "global" and (a.get("t") or "").startswith("const"))
+
+
+# ---------------------------------------------------------------------------------------------- attribute order
+def run_attrorder(chk, F, rid="R-ATTRORDER"):
+    """libxml2's text writer accepts an attribute only while the start tag of the current element is still open,
+    i.e. before any child element or text of that element has been written (xmlTextWriterWriteAttribute returns -1
+    afterwards and XMLWriter::writeAttribute throws).  Typestate over every XMLWriter method, interprocedural by
+    method summaries: state O = start tag open, C = content written; E = whatever the caller had."""
+    chk.rule(rid, "no XMLWriter method writes an attribute after content (a child element, text, or a closed child) "
+                  "of the same element on any path: writeAttribute is reached only in the state `start tag open`")
+    methods = {fn["name"]: fn for fn in F.functions.values() if fn.get("cls") == XW and fn.get("body") is not None}
+    PRIM = {"startElement": "start", "endElement": "end", "writeAttribute": "attr", "writeString": "text",
+            "xmlwriteString": "text", "writeElement": "text"}
+    summ = {m: {"needs_open": False, "exit": {"E"}} for m in methods if m not in PRIM}
+    findings = {}
+
+    def run_method(name, record):
+        fn = methods[name]
+        needs = [False]
+
+        def seq(n, st):
+            """returns set of states after executing n from state set st"""
+            if n is None:
+                return st
+            if isinstance(n, list):
+                for x in n:
+                    st = seq(x, st)
+                return st
+            if not isinstance(n, dict):
+                return st
+            k = n.get("k")
+            if k == "block":
+                return seq(n.get("s", []), st)
+            if k == "if":
+                st = seq(n.get("c"), st)
+                a = seq(n.get("then"), set(st))
+                b = seq(n.get("else"), set(st)) if n.get("else") is not None else set(st)
+                return a | b
+            if k in ("for", "while", "rangefor", "do"):
+                st = seq(n.get("init"), st)
+                st = seq(n.get("c"), st)
+                once = seq(n.get("body"), set(st))
+                twice = seq(n.get("body"), set(once))
+                return st | once | twice
+            if k == "call":
+                for a in n.get("args", []):
+                    st = seq(a, st)
+                nm = n.get("name")
+                mine = n.get("cls") == XW or (n.get("recv") is None and nm in methods) or \
+                    ((n.get("recv") or {}).get("k") == "this")
+                if mine and nm in PRIM:
+                    ev = PRIM[nm]
+                    if ev == "start":
+                        return {"O"}
+                    if ev in ("end", "text"):
+                        return {"C"}
+                    if ev == "attr":
+                        if "C" in st and record:
+                            findings.setdefault((name, n.get("l")), "writeAttribute(%s)" %
+                                                short(n["args"][0])[:30] if n.get("args") else "writeAttribute")
+                        if "E" in st:
+                            needs[0] = True
+                        return {x for x in st if x != "C"} or {"O"}
+                    return st
+                if mine and nm in summ:
+                    s2 = summ[nm]
+                    if s2["needs_open"]:
+                        if "C" in st and record:
+                            findings.setdefault((name, n.get("l")), "%s(), which writes attributes first" % nm)
+                        if "E" in st:
+                            needs[0] = True
+                    out = set()
+                    for x in s2["exit"]:
+                        out |= (st if x == "E" else {x})
+                    return out
+                return st
+            for key, v in n.items():
+                if isinstance(v, (dict, list)) and key not in ("pt", "cpt"):
+                    st = seq(v, st)
+            return st
+        ex = seq(fn["body"], {"E"})
+        return needs[0], ex
+
+    for _ in range(8):
+        changed = False
+        for m in summ:
+            nd, ex = run_method(m, False)
+            if nd != summ[m]["needs_open"] or ex != summ[m]["exit"]:
+                summ[m] = {"needs_open": nd, "exit": ex}
+                changed = True
+        if not changed:
+            break
+    n = 0
+    for m in sorted(summ):
+        run_method(m, True)
+    for m in sorted(summ):
+        fn = methods[m]
+        bad = {k: v for k, v in findings.items() if k[0] == m}
+        n += 1
+        chk.ob(rid, m, not bad,
+               "XMLWriter::%s writes an attribute after content of the same element has been written (%s): libxml2 "
+               "refuses it, write_XML_file throws and leaves a truncated file" %
+               (m, "; ".join("line %s: %s" % (k[1], v) for k, v in sorted(bad.items()))) if bad else
+               "XMLWriter::%s writes attributes only while the start tag is open" % m,
+               "%s:%s" % (fn["file"], fn["line"]))
+    if n < 10:
+        raise AnalysisBroken("only %d XMLWriter methods analysed" % n)
